@@ -385,7 +385,7 @@ def check_wait_sites(ctx, P):
                 w = fn.find_path(u, lambda n: n is c, barrier=nodeset(locks))
                 if w is not None:
                     bad = bad or ("`%s` in %s reachable after the lock was released" % (c.text, fn.name), c, w)
-        ctx.expect_count("callers of " + helper, len(cs), 2)
+        ctx.expect_count("callers of " + helper, len(cs), 1)
         if bad:
             o.fail(bad[0], site=bad[1], witness=bad[2], construct=helper + " without lock")
         else:
